@@ -519,6 +519,186 @@ def judge(ck, schema, sdl, classes, text, opname, label, doc, a0, a1, a2, a5=Non
                  sample={"text": text[:200], "errors": nerr} if nerr and label != "generated" else None)
 
 
+# --------------------------------------------------------------------------- 27 StreamDirectiveOnListField
+
+STREAM_CODE = 27
+STREAM_NAME = "StreamDirectiveOnListField"
+STREAM_ARGS = ["@stream", "@stream(initialCount: 1)", '@stream(label: "s", if: true)', "@stream(if: $v0)"]
+
+
+def mutate_stream(rng, text):
+    """insert one to three @stream directives where directives may stand: after a field (with or without
+    arguments / before its selection set), after a spread, on an inline fragment with or without type
+    condition, on the operation, on a fragment definition, on a variable definition"""
+    for _ in range(rng.choice([1, 1, 2, 3])):
+        pats = [r"(?<=[a-z0-9_)])(?=( \{|\n| \}|, | [a-z_]))", r"(?<=\.\.\.F\d)(?=\b)", r"(?<=\.\.\. on \w\w)(?= )", r"\.\.\.(?= \{)",
+                r"(?<=\))(?= \{)", r"(?<=on \w\w)(?= \{)", r"(?<=: Int)(?=[,)])"]
+        ms = []
+        for pat in rng.sample(pats, 3):
+            ms += list(re.finditer(pat, text))
+        if not ms:
+            return None
+        m = rng.choice(ms)
+        ins = rng.choice(STREAM_ARGS)
+        text = text[:m.end()] + " " + ins + text[m.end():]
+    return text
+
+
+def stream_together(schema, doc, paths, order):
+    """the errors StreamDirectiveOnListField reports inside validate() with all specified rules"""
+    from graphql.validation import validate
+    tags = {}
+    try:
+        errs = validate(schema, doc, crules.tagged_rules(tags, order), max_errors=BIG)
+    except RecursionError:
+        return ("raised", "RecursionError")
+    except Exception as e:  # noqa: BLE001
+        return ("raised", type(e).__name__)
+    return [(STREAM_CODE, tuple(paths.get(id(n)) for n in (e.nodes or ()))) for e in errs
+            if tags.get(id(e)) == STREAM_NAME]
+
+
+def core_stream(ck, tier, model_ok, budget_s=None):
+    """StreamDirectiveOnListField: the real rule alone and inside validate() (specified order, reversed) vs the
+    extracted Valid/RulesStream.v (model rules13, op 6), as multisets of (rule, path of the directive)."""
+    from graphql import build_schema, parse
+    from graphql.type import validate_schema
+    from graphql.validation import specified_rules
+    import graphql.validation as V
+
+    quick = tier == "quick"
+    rng = ck.rng
+    t0 = time.time()
+    budget = budget_s if budget_s is not None else (10 if quick else 120)
+    m = Model(MODEL) if model_ok else None
+    cls = getattr(V, STREAM_NAME, None)
+    if m is None or cls is None:
+        ck.degraded.append("stream rule: model not built or rule class absent: nothing compared")
+        return
+    raise_stack_limit()
+    ck.extra["stream_rule"] = (
+        "per generated schema (gen_exec.GSchema): type-directed documents with @stream inserted at one to three directive "
+        "positions (fields of list / non-list / unknown type, __typename, spreads, inline fragments with and without type "
+        "condition nested in fields, operations, fragment and variable definitions), plus c13.mutate mutants of them "
+        "(unknown fields, leaf types with selection sets). StreamDirectiveOnListField alone, and inside validate() with all "
+        "specified rules in specified and reversed order, vs Valid/RulesStream.v as multisets of (rule, directive path)")
+    corpus = [c for c in common.load_corpus("CSTREAM") if "sdl" in c and "text" in c]
+    n_docs = 10 if quick else 30
+    orders = [None, list(reversed(specified_rules))]
+    while True:
+        if not corpus and time.time() - t0 > budget:
+            break
+        if corpus:
+            c = corpus.pop()
+            sdl, texts = c["sdl"], [from_cps(c["text"])]
+        else:
+            gs = G.GSchema(rng)
+            sdl, texts = gs.sdl(), []
+            for _ in range(n_docs):
+                dg = G.DocGen(rng, gs, max_depth=rng.choice([2, 3, 3, 4]))
+                base = dg.document()
+                for _ in range(3):
+                    t2 = mutate_stream(rng, base)
+                    if t2:
+                        texts.append(t2)
+                        t3 = c13.mutate(rng, t2)
+                        if t3 and t3 != t2 and "@stream" in t3:
+                            texts.append(t3)
+        try:
+            schema = build_schema(sdl)
+            if validate_schema(schema):
+                continue
+            head = G.flatten(G.enc_schema(schema)) + G.flatten(enc_dirtable(schema))
+        except Exception:  # noqa: BLE001
+            ck.count("stream_skipped_schema")
+            continue
+        items = []
+        for text in texts:
+            try:
+                doc = parse(text)
+                if out_of_fragment(text, doc):
+                    ck.count("stream_skipped_out_of_fragment")
+                    continue
+                items.append((text, doc, pc.enc_node(doc)))
+            except Exception:  # noqa: BLE001
+                ck.count("stream_skipped_unparseable")
+        if not items:
+            continue
+        outs = m.run_batch([[6] + head + it[2] for it in items])
+        for (text, doc, _), a6 in zip(items, outs):
+            paths = crules.node_paths(doc)
+            replay = {"sdl": sdl, "text": cps(text), "kind": "stream"}
+            model = crules.dec_errors(a6)
+            if not isinstance(model, dict):
+                ck.violation(f"stream-model:{text!r}", f"the stream rule model gives no answer for {text[:100]!r}",
+                             dict(replay, relation="the input decodes"))
+                continue
+            mm = model.get(STREAM_CODE, [])
+            alone = impl_rule(schema, doc, cls, STREAM_CODE, paths)
+            ck.count("stream_docs")
+            if not isinstance(alone, list):
+                ck.count("stream_rule_raised")
+                if mm:
+                    ck.violation(f"stream-raised:{text!r}", f"{STREAM_NAME} raised {alone[1]} where the model reports {mm} on {text[:160]!r}",
+                                 dict(replay, relation="rule = Valid/RulesStream.v: the rule raises instead of reporting"))
+                continue
+            if alone:
+                ck.count("stream_docs_with_error")
+                ck.count("stream_errors", len(alone))
+            if Counter(alone) != Counter(mm):
+                ck.violation(f"stream:{text!r}",
+                             f"{STREAM_NAME} reports {alone} but the model {mm} on {text[:160]!r}",
+                             dict(replay, relation="rule alone = Valid/RulesStream.v (multiset of (rule, directive path))",
+                                  impl=str(alone), model=str(mm)))
+                continue
+            for order in orders:
+                tg = stream_together(schema, doc, paths, order)
+                if not isinstance(tg, list):
+                    ck.count("stream_together_raised")
+                    continue
+                ck.count("stream_together_runs")
+                if Counter(tg) != Counter(alone):
+                    ck.violation(f"stream-together:{text!r}",
+                                 f"{STREAM_NAME} reports {tg} inside validate() with all rules "
+                                 f"({'specified' if order is None else 'reversed'} order) but {alone} alone on {text[:160]!r}",
+                                 dict(replay, relation="rule together = rule alone (multiset)", together=str(tg), alone=str(alone)))
+                    break
+            ck.note_case(("cstream", sdl, text), nontrivial=bool(alone) or "@stream" in text,
+                         sample={"text": text[:200], "errors": len(alone)} if alone and rng.random() < 0.01 else None)
+    ck.extra["stream_t_s"] = round(time.time() - t0, 1)
+
+
+def replay_stream(d):
+    """re-run the stream rule comparison on the (sdl, text) of a replay file"""
+    import os
+    import tempfile
+    br = common.build("C12", models=(MODEL,))
+    if not br.ok:
+        print("build failed:", br.log[-400:])
+        return 2
+    ck = Check("C12", "replay")
+    ck.known = []
+    tmp = tempfile.mkdtemp()
+    saved = common.CORPUS
+    try:
+        os.makedirs(os.path.join(tmp, "CSTREAM"))
+        with open(os.path.join(tmp, "CSTREAM", "r.json"), "w") as f:
+            json.dump({"sdl": d["sdl"], "text": d["text"]}, f)
+        from pathlib import Path
+        common.CORPUS = Path(tmp)
+        print("schema:\n" + d["sdl"][:1500])
+        print("document:", from_cps(d["text"]))
+        core_stream(ck, "quick", True, budget_s=0)
+    finally:
+        common.CORPUS = saved
+        import shutil
+        shutil.rmtree(tmp, ignore_errors=True)
+    for key, what, _ in ck.violations:
+        print("VIOLATION:", what)
+    print("STILL FAILING" if ck.violations else "passes now")
+    return 1 if ck.violations else 0
+
+
 def match_foreign(ck, doc, a, mm):
     from graphql.language import ast as A
     ca, cm = Counter(a), Counter(mm)
@@ -552,6 +732,7 @@ def run(tier):
                       extra_targets=(f"theories/Properties/{THMS}.vo",) if has_thms else ())
     account_proofs(ck, br)
     core(ck, tier, br.ok, budget_s=70 if tier == "quick" else 800)
+    core_stream(ck, tier, br.ok, budget_s=15 if tier == "quick" else 200)
     return ck.finish()
 
 
